@@ -142,6 +142,52 @@ class Body:
         self._dom[unwind] = dom
         return dom
 
+    def postdominators(self):
+        """pdom[b] = blocks post-dominating b (including b) over normal edges; returns, diverging calls and `unreachable`
+        all lead to one virtual exit."""
+        if getattr(self, "_pdom", None) is not None:
+            return self._pdom
+        nodes = list(self.rpo())
+        ns = set(nodes)
+        EXIT = -1
+        succ = {b: ([x for x in self.succs(b) if x in ns] or [EXIT]) for b in nodes}
+        pdom = {b: set(ns) | {EXIT} for b in nodes}
+        pdom[EXIT] = {EXIT}
+        changed = True
+        while changed:
+            changed = False
+            for b in nodes:             # rpo of the forward graph visited backwards converges quickly enough for these sizes
+                new = None
+                for x in succ[b]:
+                    new = set(pdom[x]) if new is None else (new & pdom[x])
+                new = (new or set()) | {b}
+                if new != pdom[b]:
+                    pdom[b] = new
+                    changed = True
+        self._pdom = pdom
+        return pdom
+
+    def control_deps(self, b):
+        """Branch blocks the execution of block b depends on (transitively): switches with one successor from which b is
+        inevitable and another from which it can be avoided.  Unlike dominating guards this also sees a bypass that is taken
+        under a conjunction (`if a && b { return }`)."""
+        pdom = self.postdominators()
+        if b not in pdom:
+            return set()
+        out = set()
+        work = [b]
+        while work:
+            x = work.pop()
+            for s in pdom:
+                if s < 0 or s in out or self.blocks[s]["term"]["k"] != "switch":
+                    continue
+                if x in pdom[s] and x != s:
+                    continue            # x post-dominates the branch: not decided there
+                if any((y in pdom and x in pdom[y]) for y in self.succs(s)):
+                    out.add(s)
+                    work.append(s)
+        return out
+
     # ---- definitions / expressions -----------------------------------------
     def defs(self):
         """local -> list of ('stmt', bb, idx, stmt) | ('call', bb, term)."""
@@ -1127,14 +1173,39 @@ class PEval:
                             changed = True
         return out
 
+    def _option_local(self, op):
+        """The Option-typed local an is_some/is_none receiver (`&opt`, possibly through one copy) refers to."""
+        p = operand_place(op)
+        if p is None or p["p"]:
+            return None
+        l = p["l"]
+        for _ in range(3):
+            ds = self.body.defs().get(l, [])
+            if len(ds) == 1 and ds[0][0] == "stmt" and ds[0][3]["k"] == "=":
+                rv = ds[0][3]["rv"]
+                if rv["k"] == "ref" and not rv["place"]["p"]:
+                    l = rv["place"]["l"]
+                    continue
+                if rv["k"] == "use" and operand_place(rv["op"]) is not None and not operand_place(rv["op"])["p"]:
+                    l = operand_place(rv["op"])["l"]
+                    continue
+            break
+        return l
+
     def _eval_rvalue(self, rv, env, b):
         k = rv["k"]
+        hook = getattr(self.assume, "value_of", None)
         if k == "use":
-            return self._eval_operand(rv["op"], env)
+            v = self._eval_operand(rv["op"], env)
+            if v is None and hook is not None:
+                # a flag copied out of state the assumption talks about (`let hidden = newer.seq_cst`)
+                r = hook(self.body, b, self.body.expr_of_operand(rv["op"]))
+                if r is not None:
+                    return ("int", 1 if r else 0)
+            return v
         if k == "unop" and rv["op"] == "Not":
             v = self._eval_operand(rv["a"], env)
             return ("int", 0 if v[1] else 1) if v and v[0] == "int" else None
-        hook = getattr(self.assume, "value_of", None)
         if hook is not None:
             r = hook(self.body, b, self.body.expr_of_rvalue(rv))
             if r is not None:
@@ -1227,6 +1298,13 @@ class PEval:
                 l = s["lhs"]["l"]
                 if l in self._tracked and s["rv"]["k"] == "use" and "k" in s["rv"]["op"] and "int" in s["rv"]["op"]["k"]:
                     env[l] = ("int", s["rv"]["op"]["k"]["int"])
+                elif s["rv"]["k"] == "agg" and s["rv"].get("adt") in ("std::option::Option", "core::option::Option") and \
+                        s["rv"].get("variant") in ("Some", "None") and len(body.defs().get(l, [])) > 1:
+                    # an Option assembled on several paths: remember which variant this path built (None = 0, Some = 1)
+                    env[l] = ("int", 1 if s["rv"]["variant"] == "Some" else 0)
+                elif s["rv"]["k"] == "discr" and not s["rv"]["place"]["p"] and s["rv"]["place"]["l"] in env and \
+                        s["rv"].get("adt") in ("std::option::Option", "core::option::Option"):
+                    env[l] = env[s["rv"]["place"]["l"]]
                 elif l in self._flow:
                     # bool temporaries that are copied / negated / compared along the path (the shape desugared combinators and
                     # inlined predicates leave behind): evaluate when the operands are known on this path
@@ -1239,7 +1317,16 @@ class PEval:
             succs = body.succs(b, self.unwind)
             if b in stop_blocks and b != start:
                 continue
-            if t["k"] == "call" and not t["dest"]["p"] and (t["dest"]["l"] in self._tracked or t["dest"]["l"] in self._flow):
+            optsrc = None
+            if t["k"] == "call" and not t["dest"]["p"] and callee_path(t).split("::")[-1] in ("is_some", "is_none") and \
+                    "Option" in callee_path(t) and len(t["args"]) == 1:
+                optsrc = self._option_local(t["args"][0])
+                if optsrc not in env:
+                    optsrc = None
+            if optsrc is not None:
+                some = env[optsrc][1] == 1
+                env[t["dest"]["l"]] = ("int", 1 if (some == callee_path(t).endswith("is_some")) else 0)
+            elif t["k"] == "call" and not t["dest"]["p"] and (t["dest"]["l"] in self._tracked or t["dest"]["l"] in self._flow):
                 probe = {"k": "switch", "targets": [[0, -1]], "otherwise": -2}
                 e = ("call", callee_path(t), [body.expr_of_operand(a) for a in t["args"]], b)
                 allowed = self.assume(body, b, probe, e) if self.assume else None
@@ -1261,6 +1348,11 @@ class PEval:
                 elif self.assume:
                     ex = body.expr_of_operand(t["op"])
                     allowed = self.assume(body, b, t, ex)
+                    fn_state = getattr(self.assume, "stateful", None)
+                    if allowed is None and fn_state is not None:
+                        # assumptions that depend on what the path has already seen ("the first test of this field ..."):
+                        # the hook may keep per-path markers in env under negative keys
+                        allowed = fn_state(body, b, t, ex, env)
                     fn_first = getattr(self.assume, "first_next", None)
                     if allowed is None and fn_first is not None and ex[0] == "discr" and strip(ex[1])[0] == "call" and \
                             strip(ex[1])[1] == "std::iter::Iterator::next":
